@@ -39,4 +39,21 @@ CONFIG = {
         "quick": {"checks": 500, "shards": 8},
         "thorough": {"checks": 12000, "shards": 16},
     },
+    "C01": {
+        "rule": "one rapid property per registry entry (61 Compute methods plus Envelope/Atr/SuperTrend variants): admissible configuration "
+                "(periods 1-8 in ~70% of draws, 9-30 in ~20%, up to 3x default in ~10%, defaults in 5%; ordering constraints by construction), "
+                "input length biased to [0, 2w+3] with a tail to 260, OHLCV/numeric series of a drawn class (walk, flat, monotone, sawtooth, "
+                "ties, zeros, spikes, two-decimal, flat bars; dyadic values so that window sums are exact). Oracle: a slice reference written "
+                "from the type's doc comment over absolute input positions with propagated first-order error bounds; positions whose bound is "
+                "infinite (zero/cancelling denominator, ambiguous comparison) are exempt. Non-trivial: n > warm-up and >= 1 compared position. "
+                "Distinct = different (indicator, configuration, length, series hash).",
+        "technique": "property-based testing (rapid) against doc-comment reference models with derived error bounds; known defects matched by executable defect models",
+        "level_text": "Each indicator is run on generated configurations/series and compared position by position with an independent slice model of its documented formula; alignment is by absolute position so look-alike pipelines with shifted branches are exposed. Sampling over small periods and short series, where an off-by-one changes every output.",
+        "level_note": "Trusts the reference models (ref/, reg/) as readings of the doc comments; readings chosen where the comment is silent are listed in each entry's Doc string and in DESIGN.md and are not claimed. float64 instantiations only. Periods <= 90, series <= 260.",
+        "assumptions": ["references are transcriptions of the doc comments; where a comment is silent (seed of recursive averages, SuperTrend's first value, MFI's flow sign, Po's slope, Chandelier's period high, causal Ichimoku lagging span) the code's reading is used and not claimed",
+                        "error bounds are first-order with a slack factor of 16"],
+        "gomaxprocs": [1],
+        "quick": {"checks": 600, "shards": 16},
+        "thorough": {"checks": 5000, "shards": 16, "timeout": 7200},
+    },
 }
